@@ -34,6 +34,8 @@ class Opts:
         self.splits = True
         self.nonterm_splits = True
         self.strict = True          # no split/capital event on a trade date of the same security
+        self.strict_splits = None   # override `strict` for SPLIT/UNSPLIT only
+        self.strict_capital = None  # override `strict` for CAPRETURN/ACCUMULATION only
         self.currencies = None      # e.g. ["USD","EUR"]; None -> GBP only
         self.start = (dt.date(2016, 1, 1), dt.date(2025, 1, 1))
         self.last_date = dt.date(2026, 3, 1)
@@ -46,6 +48,10 @@ class Opts:
         self.sell_p = 0.45
         self.templates_p = 0.35
         self.__dict__.update(kw)
+        if self.strict_splits is None:
+            self.strict_splits = self.strict
+        if self.strict_capital is None:
+            self.strict_capital = self.strict
 
 
 def money(amt: Fraction, code="GBP"):
@@ -64,6 +70,8 @@ class SecWalk:
         self.txs = []
         self.trade_dates = set()
         self.event_dates = set()   # split / capital event dates
+        self.split_dates = set()
+        self.capital_dates = set()
         self.day_bought = {}       # date -> qty bought that day (for sizing same-day sells)
         self.feat = set()
         self.code = "GBP"
@@ -128,7 +136,8 @@ class SecWalk:
 
     # -- emitters --------------------------------------------------------
     def _trade_date_ok(self):
-        if self.o.strict and self.date in self.event_dates:
+        while (self.o.strict_splits and self.date in self.split_dates) or \
+                (self.o.strict_capital and self.date in self.capital_dates):
             self.date += dt.timedelta(days=1)
 
     def buy(self, q=None, p=None, f=None):
@@ -192,12 +201,12 @@ class SecWalk:
             v = min(x, Fraction(1, scale))
         return v
 
-    def _event_date_ok(self):
-        if self.o.strict and self.date in self.trade_dates:
+    def _event_date_ok(self, strict):
+        if strict and self.date in self.trade_dates:
             self.date += dt.timedelta(days=1)
 
     def split(self, ratio=None, unsplit=None):
-        self._event_date_ok()
+        self._event_date_ok(self.o.strict_splits)
         r = self.r
         if ratio is None:
             pool = SPLIT_RATIOS_TERM + (SPLIT_RATIOS_NONTERM if self.o.nonterm_splits else [])
@@ -209,11 +218,14 @@ class SecWalk:
         m = Fraction(ratio)
         self.pos = self.pos / m if unsplit else self.pos * m
         self.event_dates.add(self.date)
+        self.split_dates.add(self.date)
         self.feat.add("split")
 
     def capital(self):
-        self._event_date_ok()
+        self._event_date_ok(self.o.strict_capital)
         r = self.r
+        if not self.o.strict_capital and self.trade_dates and r.random() < 0.7:
+            self.date = max(self.trade_dates)      # put the event on the latest trade date of the security
         if r.random() < 0.5:
             amt = Fraction(r.randint(1, 2000), 100)
             f = Fraction(r.randint(0, 100), 100) if r.random() < 0.3 else ZERO
@@ -230,6 +242,7 @@ class SecWalk:
                              "tax": money(t, self.cur() if t else "GBP")})
             self.feat.add("accumulation")
         self.event_dates.add(self.date)
+        self.capital_dates.add(self.date)
 
     def dividend(self):
         r = self.r
